@@ -33,11 +33,14 @@ type World struct {
 	heapSorts map[string]string // heap name -> SMT sort
 	heapOrder []string
 
-	globals map[*ssa.Global]string // global -> ref constant name
+	globals        map[*ssa.Global]string // global -> ref constant name
 	funcByName     map[string]*ssa.Function
 	funcConstOrder []string
 
 	specs *Contracts
+
+	// library functions called without a contract and treated as pure and total (reported as assumptions)
+	pureUsed map[string]bool
 }
 
 func sanitize(s string) string {
